@@ -103,6 +103,34 @@ def sink_rule(repo, res, ty, rule="SINK"):
                 inside = T.quote_state(before)
                 res.check(not inside, "QCTX", f"QCTX:{fn.qname}:{what}", f"encoded text hole `{what}` in `{s.template.strip()[:50]}` sits " + ("INSIDE double quotes although the encoder adds its own: the constant is closed by the encoder's opening quote" if inside else "outside double quotes; the encoder supplies them"), loc)
                 res.ok(rule, key, f"text reaches the hole only through {mod}::make_string_constant", loc)
+        # POSTENC: what the encoder returned is a finished constant; a String that holds it may be handed on whole, never taken apart
+        # or edited (split into lines and re-indented, trimmed, replaced in): a line break inside a description is part of the text
+        EDITS = {"lines", "split", "split_terminator", "split_inclusive", "split_whitespace", "splitn", "rsplit", "rsplitn", "trim", "trim_start", "trim_end", "trim_matches",
+                 "trim_start_matches", "trim_end_matches", "replace", "replacen", "chars", "char_indices", "bytes", "to_lowercase", "to_uppercase", "to_ascii_lowercase",
+                 "to_ascii_uppercase", "truncate", "pop", "remove", "retain", "drain", "strip_prefix", "strip_suffix", "split_off", "split_at", "split_once", "rsplit_once", "escape_default", "escape_debug"}
+        n_hold = 0
+        for fn in repo.fns_in(mod):
+            if fn.name in enc_names:
+                continue
+            holders = set()
+            calls_enc = lambda node: any(x["k"] == "Call" and x["func"]["k"] == "Path" and x["func"]["path"].split("::")[-1] in enc_names for x in A.walk(node))
+            for x in A.walk(fn.body):
+                if x["k"] == "Macro" and x.get("name", "").split("::")[-1] in ("write", "writeln") and x.get("args") and calls_enc(x):
+                    d = x["args"][0]
+                    while d.get("k") in ("Ref", "Paren", "Unary"):
+                        d = d["expr"]
+                    if d.get("k") == "Path" and "::" not in d["path"]:
+                        holders.add(d["path"])
+                elif x["k"] == "MethodCall" and x["method"] in ("push_str", "push", "extend", "insert_str") and x["recv"].get("k") == "Path" and calls_enc(x):
+                    holders.add(x["recv"]["path"])
+                elif x["k"] == "Local" and x.get("init") is not None and x["pat"].get("k") == "PIdent" and calls_enc(x["init"]) and x["init"].get("k") in ("Call", "Macro", "MethodCall"):
+                    holders.add(x["pat"]["name"])
+            params = {p_["name"] for p_ in fn.params}
+            for h in sorted(holders - params):
+                n_hold += 1
+                edits = [x for x in A.walk(fn.body) if x["k"] == "MethodCall" and x["method"] in EDITS and any(y["k"] == "Path" and y["path"] == h for y in A.walk(x["recv"]))]
+                res.check(not edits, rule, f"{rule}:{fn.qname}:POSTENC:{h}", f"`{h}` holds encoded constants and is handed on whole" if not edits else
+                          f"`{h}` holds encoded constants and is then taken apart / edited with .{edits[0]['method']}(..): the constant that reaches the script is no longer what the encoder made (a line break or blank inside a description changes)", f"{fn.file}:{(edits[0] if edits else fn.node)['l']}")
         res.check(used >= floors[mod], rule, f"{rule}:{mod}:USED", f"{used} holes of {mod} carry grammar text through the encoder (confirmed floor {floors[mod]}: literals" + (", descriptions)" if floors[mod] > 1 else ")"), f"src/{mod}.rs")
     return n
 
